@@ -106,7 +106,7 @@ def _ord(lst, x):
     return lst.index(x) + 1
 
 
-def implies_field_true(E, local, field):
+def implies_field_true(E, local, field, _depth=0):
     """bool local `local` can only be true if option field `field` was read as true: every definition of the local is
     either `const false` or control-dependent on the true edge of a switch on `<..>.field`."""
     for d in E.defs().get(local, []):
@@ -114,6 +114,9 @@ def implies_field_true(E, local, field):
             return False
         rv = d[4]
         if rv[0] == "use" and rv[1][0] == "k" and rv[1][1].get("v") is False:
+            continue
+        # a copy of another bool local that itself implies the field (`let early = has && early_delete_index;`)
+        if rv[0] == "use" and rv[1][0] in ("c", "m") and len(rv[1][1]) == 1 and _depth < 3 and rv[1][1][0] != local and implies_field_true(E, rv[1][1][0], field, _depth + 1) and E.defs().get(rv[1][1][0]):
             continue
         bb = d[1]
         okd = False
